@@ -26,7 +26,7 @@ Line protocol of the C03 model driver.
                                 pickle round trip of the object with channels `scope`; one `|` group per
                                 composite, innermost first (the six fields of `Data.Comp`)
     setup, continued:
-      cfg <revIter 0|1> <pushLinks 0|1>    variant of __setstate__ (pinned tree: 0 1)
+      cfg <revIter 0|1> <pushIn 0|1> <pushOut 0|1>    variant of __setstate__ (current tree: 0 0 1)
 -/
 
 structure St where
@@ -235,10 +235,10 @@ def stepLine (st : St) (ws : List String) : St × List String :=
     match c.toNat?, parseBit b with
     | some c, some b => doOp st (.setStrict c b)
     | _, _ => bad
-  | ["cfg", r, p] =>
-    match parseBit r, parseBit p with
-    | some r, some p => ({ st with cfg := ⟨r, p⟩ }, [])
-    | _, _ => bad
+  | ["cfg", r, p, q] =>
+    match parseBit r, parseBit p, parseBit q with
+    | some r, some p, some q => ({ st with cfg := ⟨r, p, q⟩ }, [])
+    | _, _, _ => bad
   | "rt" :: rest =>
     match groups rest with
     | scope :: comps =>
